@@ -9,6 +9,11 @@ import Ach.Model.PipelineDriver
 import Ach.Model.ServerDriver
 import Ach.Model.RepoDriver
 import Ach.Model.IODriver
+import Ach.Model.ReaderDriver
+import Ach.Model.MergeDriver
+import Ach.Model.FlattenDriver
+import Ach.Model.SegmentDriver
+import Ach.Model.ReversalDriver
 /-!
 `achmodel`: the executable model behind the correspondence check.  Reads one
 operation per line on stdin, writes one result line per operation.
@@ -82,6 +87,11 @@ def step (cx : Ctx) (line : String) : String :=
      | _ => Ach.CreateDriver.run args)
   | "validate" :: args => Ach.ValidateDriver.run args
   | ["write", shape] => writeShape shape
+  | "reader" :: toks => Ach.ReaderSM.runLine toks
+  | "merge" :: args => Ach.MergeDriver.run args
+  | "flatten" :: args => Ach.FlattenDriver.run args
+  | "segment" :: args => Ach.SegmentDriver.run args
+  | "reversal" :: args => Ach.ReversalDriver.run args
   | ["mask", "number", h] =>
     match hexToStr h with
     | some s => bytesToHex (ByteArray.mk (maskNumber s).toArray)
